@@ -23,3 +23,4 @@ Example C17_chunking_example :
 Proof. vm_compute. reflexivity. Qed.
 Print Assumptions C17_chunk_invariance.
 Print Assumptions C17_cascade_state_carried.
+Print Assumptions C17_filter_state_carried.
